@@ -85,7 +85,12 @@ func init() {
 					defer wg.Done()
 					t := trees[i]
 					<-start
-					o, e := buildTreeMem(t)
+					// several builds in a row per goroutine: later builds START while the other goroutines are in the middle of
+					// theirs (a lock-step start alone never overlaps the beginning of one build with the body of another)
+					var o, e string
+					for rep := 0; rep < 1+i%3; rep++ {
+						o, e = buildTreeMem(t)
+					}
 					conc[i] = [2]string{o, e}
 				}(i)
 			}
